@@ -187,6 +187,124 @@ theorem distinct_cells (h : Heap) (hi : Inv h) (i j : ℕ) (hi' : i < h.objs.len
   · have := List.pairwise_iff_getElem.mp hi.2 j i hj hi' hgt
     exact ⟨this.1.symm, this.2.symm⟩
 
+/-! ### derivation never changes what already exists -/
+
+/-- everything one can observe of an object: its codes, flags and configuration. -/
+def Obs (h : Heap) (y : HObj) : List ℤ × Flags3 × Cfg := (h.codes y, h.flagsOf y, h.cfgOf y)
+
+/-- the steps that create an object (all public derivation routes of the model). -/
+def isDerive : HStep → Bool
+  | .write .. | .windex .. | .setCfg .. | .reset .. => false
+  | _ => true
+
+theorem lookup_cons_ne {α} (l : List (ℕ × α)) (k k' : ℕ) (v d : α) (h : k' ≠ k) :
+    lookup ((k, v) :: l) k' d = lookup l k' d := by
+  unfold lookup
+  have : ((k, v).1 == k') = false := by simpa using (Ne.symm h)
+  simp [List.find?_cons, this]
+
+/-- allocation leaves every object whose cells are below the allocation counter exactly as it was. -/
+theorem alloc_obs (h : Heap) (name : String) (fmt : Fmt) (rows cols : ℕ) (c : Cfg) (fl : Flags3) (cs : List ℤ) (y : HObj)
+    (hy : y.cfg < h.next ∧ y.st < h.next ∧ y.buf < h.next) :
+    Obs (h.alloc name fmt rows cols c fl cs) y = Obs h y := by
+  unfold Obs Heap.alloc Heap.codes Heap.flagsOf Heap.cfgOf
+  simp only
+  rw [lookup_cons_ne _ _ _ _ _ (by omega), lookup_cons_ne _ _ _ _ _ (by omega), lookup_cons_ne _ _ _ _ _ (by omega)]
+
+/-- **operands, templates and sources are never modified by a derivation**: after any creating step — constructor,
+`like=`, `deepcopy`, `like()`, conversion, `+`, `~`, `<<`, `>>`, indexing, slicing — every object that existed before
+shows the same codes, flags and configuration. -/
+theorem derive_preserves (h : Heap) (hi : Inv h) (s : HStep) (hd : isDerive s = true) (y : HObj) (hy : y ∈ h.objs) :
+    Obs (h.step s) y = Obs h y := by
+  have hc := hi.1 y hy
+  have hview : ∀ (c : Cfg) (objs : List HObj),
+      Obs { h with next := h.next + 2, cfgs := (h.next, c) :: h.cfgs, sts := (h.next + 1, clean) :: h.sts, objs := objs } y = Obs h y := by
+    intro c objs
+    unfold Obs Heap.codes Heap.flagsOf Heap.cfgOf
+    simp only
+    rw [lookup_cons_ne _ _ _ _ _ (by omega), lookup_cons_ne _ _ _ _ _ (by omega)]
+  cases s with
+  | create a fmt rows cols => simp only [Heap.step]; exact alloc_obs _ _ _ _ _ _ _ _ _ hc
+  | likeKw b a => simp only [Heap.step]; split <;> (first | rfl | exact alloc_obs _ _ _ _ _ _ _ _ _ hc)
+  | deepcopy b a => simp only [Heap.step]; split <;> (first | rfl | exact alloc_obs _ _ _ _ _ _ _ _ _ hc)
+  | likeM b a t => simp only [Heap.step]; split <;> (first | rfl | exact alloc_obs _ _ _ _ _ _ _ _ _ hc)
+  | conv b a fmt => simp only [Heap.step]; split <;> (first | rfl | exact alloc_obs _ _ _ _ _ _ _ _ _ hc)
+  | add c a b =>
+    simp only [Heap.step]
+    split
+    · split <;> (first | rfl | exact alloc_obs _ _ _ _ _ _ _ _ _ hc)
+    · rfl
+  | invert c a => simp only [Heap.step]; split <;> (first | rfl | exact alloc_obs _ _ _ _ _ _ _ _ _ hc)
+  | lshift c a n => simp only [Heap.step]; split <;> (first | rfl | exact alloc_obs _ _ _ _ _ _ _ _ _ hc)
+  | rshiftKeep c a n => simp only [Heap.step]; split <;> (first | rfl | exact alloc_obs _ _ _ _ _ _ _ _ _ hc)
+  | index v a i => simp only [Heap.step]; split <;> (first | rfl | exact hview _ _)
+  | slice v a start step n => simp only [Heap.step]; split <;> (first | rfl | exact hview _ _)
+  | column v a j => simp only [Heap.step]; split <;> (first | rfl | exact hview _ _)
+  | write a vs => simp [isDerive] at hd
+  | windex a i v => simp [isDerive] at hd
+  | setCfg a c => simp [isDerive] at hd
+  | reset a => simp [isDerive] at hd
+
+/-- a whole-value write gives `x` a new buffer: every *other* object (other name, other status cell) is unchanged —
+including former views of `x`, which keep the old buffer. -/
+theorem frame_write (h : Heap) (hi : Inv h) (a : String) (vs : List ℚ) (x y : HObj) (hx : h.find a = some x) (hy : y ∈ h.objs)
+    (hs : y.st ≠ x.st) :
+    (h.step (.write a vs)).codes y = h.codes y ∧ (h.step (.write a vs)).flagsOf y = h.flagsOf y ∧
+    (h.step (.write a vs)).cfgOf y = h.cfgOf y := by
+  have hc := hi.1 y hy
+  simp only [Heap.step, hx, Heap.cfgOf, Heap.flagsOf, Heap.codes]
+  refine ⟨?_, lookup_update_ne _ _ _ _ _ hs, trivial⟩
+  rw [lookup_cons_ne _ _ _ _ _ (by omega)]
+
+/-- the object a mutating step acts on. -/
+def target : HStep → Option String
+  | .write a _ => some a | .windex a _ _ => some a | .setCfg a _ => some a | .reset a => some a
+  | _ => none
+
+/-- **a mutation of one object never changes another**: whatever the mutating step (whole write, indexed write,
+configuration change, reset) on `x`, an object `y` that owns other config and status cells (every other object of a
+reachable heap does, `distinct_cells`) and lives on another buffer (every object that is not a view of `x` or of `x`'s
+base) shows the same codes, flags and configuration afterwards. -/
+theorem mutation_frame (h : Heap) (hi : Inv h) (s : HStep) (a : String) (x y : HObj) (ht : target s = some a)
+    (hx : h.find a = some x) (hy : y ∈ h.objs) (hc : y.cfg ≠ x.cfg) (hs : y.st ≠ x.st) (hb : y.buf ≠ x.buf) :
+    Obs (h.step s) y = Obs h y := by
+  unfold Obs
+  cases s with
+  | write b vs =>
+    simp only [target, Option.some.injEq] at ht; subst ht
+    obtain ⟨h1, h2, h3⟩ := frame_write h hi b vs x y hx hy hs
+    rw [h1, h2, h3]
+  | windex b i v =>
+    simp only [target, Option.some.injEq] at ht; subst ht
+    obtain ⟨h1, h2, h3⟩ := frame_windex h b i v x y hx hb hs
+    rw [h1, h2, h3]
+  | setCfg b c =>
+    simp only [target, Option.some.injEq] at ht; subst ht
+    obtain ⟨h1, h2, h3⟩ := frame_setCfg h b c x y hx hc
+    rw [h1, h2, h3]
+  | reset b =>
+    simp only [target, Option.some.injEq] at ht; subst ht
+    obtain ⟨h1, h2, h3⟩ := frame_reset h b x y hx hs
+    rw [h1, h2, h3]
+  | create _ _ _ _ => simp [target] at ht
+  | likeKw _ _ => simp [target] at ht
+  | deepcopy _ _ => simp [target] at ht
+  | likeM _ _ _ => simp [target] at ht
+  | conv _ _ _ => simp [target] at ht
+  | add _ _ _ => simp [target] at ht
+  | invert _ _ => simp [target] at ht
+  | lshift _ _ _ => simp [target] at ht
+  | rshiftKeep _ _ _ => simp [target] at ht
+  | index _ _ _ => simp [target] at ht
+  | slice _ _ _ _ _ => simp [target] at ht
+  | column _ _ _ => simp [target] at ht
+
+/-- both frame statements along every history: in every reachable heap a creating step changes no existing object. -/
+theorem derive_preserves_reachable (hist : List HStep) (s : HStep) (hd : isDerive s = true) (y : HObj)
+    (hy : y ∈ (emptyHeap.run hist).objs) :
+    Obs ((emptyHeap.run hist).step s) y = Obs (emptyHeap.run hist) y :=
+  derive_preserves _ (no_sharing_invariant hist) s hd y hy
+
 /-! ### views: indexing is the one documented exception -/
 
 theorem writeWindow_get (buf : List ℤ) (off : ℕ) (c : ℤ) (hoff : off < buf.length) :
